@@ -224,7 +224,10 @@ func c20Random(s Src, tier string) *Case {
 		ls = append(ls, l.text)
 	}
 	stdin := c20SessionStdin(ls)
-	if Chance(s, "nofinalnl", 1, 4) {
+	eio := Chance(s, "eio", 1, 10)
+	if !eio && Chance(s, "nofinalnl", 1, 4) {
+		// (with an injected read error the input stays newline-terminated: what
+		// happens to a partial line cut off by an error is not specified)
 		stdin = strings.TrimSuffix(stdin, "\n")
 	}
 	base := replCfg(stdin)
@@ -237,7 +240,7 @@ func c20Random(s Src, tier string) *Case {
 		roles = append(roles, d)
 	}
 	cs := c20Case(pool, cfgs, roles, "rnd")
-	if Chance(s, "eio", 1, 10) {
+	if eio {
 		// EIO at the start of line k's text: responses before k are judged
 		k := s.Int("eioline", 1, n)
 		off := 0
@@ -424,8 +427,8 @@ func c20Eval(cs *Case, ctx *EvalCtx) []Violation {
 			add(ax.FreshOf[i], "session-ended", "by:"+ax.Names[i], fmt.Sprintf("after line %q the next line got no response (exit=%d returned=%v)", ax.Lines[i], o.Res.Exit, o.Res.Returned))
 			continue
 		}
-		if !o.Res.Returned || o.Res.Exit != 0 {
-			add(ax.FreshOf[i], "exit-status", sig, fmt.Sprintf("end of input: exit=%d returned=%v", o.Res.Exit, o.Res.Returned))
+		if o.ExitStatus() != 0 {
+			add(ax.FreshOf[i], "exit-status", sig, fmt.Sprintf("end of input must end the session with status 0: exit=%d", o.Res.Exit))
 		}
 		fresh[i] = sg[0]
 		freshOK[i] = true
@@ -468,8 +471,8 @@ func c20Eval(cs *Case, ctx *EvalCtx) []Violation {
 				break
 			}
 		}
-		if ax.JudgeUpTo == 0 && o.Res.Panic == "" && !o.Res.Budget && (!o.Res.Returned || o.Res.Exit != 0) {
-			add(r, "exit-status", cs.Sig, fmt.Sprintf("[%s] end of input: exit=%d returned=%v", role, o.Res.Exit, o.Res.Returned))
+		if ax.JudgeUpTo == 0 && o.Res.Panic == "" && !o.Res.Budget && o.ExitStatus() != 0 {
+			add(r, "exit-status", cs.Sig, fmt.Sprintf("[%s] end of input must end the session with status 0: exit=%d", role, o.Res.Exit))
 		}
 		if r == 0 {
 			firstSegs = segs
